@@ -1,6 +1,7 @@
 package checks
 
 import (
+	"context"
 	"encoding/json"
 	"fmt"
 	"sort"
@@ -41,10 +42,13 @@ const (
 	c01un                // unknown-method notification
 	c01vi                // invalid member with id
 	c01vn                // invalid member without id
+	c01rc                // call whose handler returns an error with code InvalidRequest
+	c01rn                // notification whose handler returns an error with code InvalidRequest
+	c01pn                // notification whose handler returns an error with code ParseError
 	c01numKinds
 )
 
-var c01names = [...]string{"gc", "ic", "ec", "gn", "in", "uc", "un", "vi", "vn"}
+var c01names = [...]string{"gc", "ic", "ec", "gn", "in", "uc", "un", "vi", "vn", "rc", "rn", "pn"}
 
 type c01member struct {
 	kind c01kind
@@ -52,7 +56,7 @@ type c01member struct {
 	id   string // raw JSON id, "" for none
 }
 
-func (m c01member) runnable() bool { return m.kind <= c01in }
+func (m c01member) runnable() bool { return m.kind <= c01in || m.kind >= c01rc }
 func (m c01member) gated() bool    { return m.kind == c01gc || m.kind == c01gn }
 
 func (m c01member) wire() string {
@@ -75,6 +79,12 @@ func (m c01member) wire() string {
 		return fmt.Sprintf(`{"jsonrpc":"1.0","id":%s,"method":"i","params":{"t":%q}}`, m.id, m.tag)
 	case c01vn:
 		return fmt.Sprintf(`{"jsonrpc":"2.0","method":"i","params":{"t":%q},"bogus":1}`, m.tag)
+	case c01rc:
+		return peer.Req(m.id, "r", m.tag)
+	case c01rn:
+		return peer.Req("", "r", m.tag)
+	case c01pn:
+		return peer.Req("", "p", m.tag)
 	}
 	panic("kind")
 }
@@ -137,7 +147,7 @@ func c01build(shapes []c01shape) (msgs []c01msg, gates []string) {
 		for j, k := range sh.kinds {
 			mem := c01member{kind: k, tag: fmt.Sprintf("m%d.%d", i, j)}
 			switch k {
-			case c01gc, c01ic, c01ec, c01uc, c01vi:
+			case c01gc, c01ic, c01ec, c01uc, c01vi, c01rc:
 				n++
 				if n%2 == 0 {
 					mem.id = fmt.Sprintf(`"s%d"`, n)
@@ -165,6 +175,8 @@ func c01predict(m c01msg, seq map[string]string) string {
 			parts = append(parts, fmt.Sprintf("id=%s result=%s/%s", mem.id, mem.tag, seq[mem.tag]))
 		case c01ec:
 			parts = append(parts, fmt.Sprintf("id=%s error=7:E:%s", mem.id, mem.tag))
+		case c01rc:
+			parts = append(parts, fmt.Sprintf("id=%s error=-32600", mem.id))
 		case c01uc:
 			parts = append(parts, fmt.Sprintf("id=%s error=-32601", mem.id))
 		case c01vi:
@@ -300,6 +312,9 @@ func c01check(c *vt.Ctx, rig *peer.ServerRig, msgs []c01msg, final bool, when st
 		preds = append(preds, p)
 	}
 	for _, rec := range rig.Outbound() {
+		if ms, _, err := peer.Decode(rec); err == nil && len(ms) == 1 && ms[0].Method == "cb" {
+			continue // a pushed callback request of the push variant, not a response
+		}
 		sig := c01actual(c, rec)
 		var hit *pred
 		for _, p := range preds {
@@ -331,12 +346,21 @@ type c01run struct {
 	conc   int
 	order  []string
 	ctrl   *sched.Controller
+	push   int // server callbacks left pending throughout (their ids 1..push collide with request ids)
 }
 
 func c01exec(c *vt.Ctx, r c01run) {
 	msgs, _ := c01build(r.shapes)
 	peer.Bubble(c, r.ctrl, func() {
-		rig := peer.NewServerRig(c, r.ctrl, peer.ServerOpts{Concurrency: r.conc})
+		rig := peer.NewServerRig(c, r.ctrl, peer.ServerOpts{Concurrency: r.conc, AllowPush: r.push > 0})
+		cbctx, cbcancel := context.WithCancel(context.Background())
+		defer cbcancel()
+		for k := 0; k < r.push; k++ {
+			go rig.Srv.Callback(cbctx, "cb", nil)
+		}
+		if r.push > 0 {
+			rig.Settle()
+		}
 		for _, m := range msgs {
 			rig.Send(m.wire())
 		}
@@ -350,6 +374,8 @@ func c01exec(c *vt.Ctx, r c01run) {
 		if len(r.order) == 0 {
 			c01check(c, rig, msgs, true, "final")
 		}
+		cbcancel()
+		rig.Settle()
 		if _, ok := rig.Finish(); !ok {
 			c.Failf("server did not exit after the peer closed")
 		}
@@ -412,8 +438,14 @@ func c01cases(e vt.Env, yield func(vt.Case) bool) {
 	runOrders := func(c *vt.Ctx, id string, shapes []c01shape, conc int) {
 		_, gates := c01build(shapes)
 		rng := e.Rand(id)
+		// every third script runs on a push-enabled server with two callbacks pending
+		// (callback ids 1 and 2 collide with the script's request ids)
+		push := 0
+		if vt.Hash64(id)%3 == 0 {
+			push = 2
+		}
 		for _, ord := range orders(gates, 4, e.Pick(4, 10), rng) {
-			c01exec(c, c01run{shapes: shapes, conc: conc, order: ord, ctrl: sched.New()})
+			c01exec(c, c01run{shapes: shapes, conc: conc, order: ord, ctrl: sched.New(), push: push})
 			if c01nontrivial(shapes) {
 				c.Distinct(id + "/" + join(ord))
 				if c.WantSample() {
